@@ -999,10 +999,16 @@ def _walk(tr: Tr, cls: ast.ClassDef, dict_attr: str):
     it = loop.iter
     src = 'WDict'
     container = CONTAINERS.get(cls.name)
+
+    def obj(node):
+        # a local that was bound (once, before the loop) to an attribute of self names the same object
+        if isinstance(node, ast.Name) and env.get(node.id) is not None and not env[node.id][1] and env[node.id][0].startswith('self.'):
+            return env[node.id][0]
+        return _dotted(node)
     if (isinstance(it, ast.Call) and isinstance(it.func, ast.Attribute) and it.func.attr in ('items', 'values')
-            and _dotted(it.func.value) == f'self.{dict_attr}' and not it.args and not it.keywords):
+            and obj(it.func.value) == f'self.{dict_attr}' and not it.args and not it.keywords):
         mode = it.func.attr
-    elif container is not None and _dotted(it) == f'self.{container}':
+    elif container is not None and obj(it) == f'self.{container}':
         # `for file in self.vpk`: every file of the container, case-duplicates included
         src, mode = 'WCont None', 'values'
     elif (container is not None and isinstance(it, ast.Call) and _dotted(it.func) == f'self.{container}.fileinfos'
